@@ -294,6 +294,43 @@ func CheckC17Unit(run *harness.Run) ([]harness.Finding, map[string]interface{}, 
 	for L := 1; L <= maxLen; L++ {
 		rec(nil, L)
 	}
+	// the same alphabet at the boundaries of the height range: heights 1..4 mapped to b..b+3 for b next to 2^31, 2^32, 2^63
+	// and 2^64-1 (the node starts at height 0, so the first messages are 2^31 .. 2^64-2 heights ahead of it)
+	boundarySeqs := 0
+	for _, b := range []uint64{1<<31 - 2, 1<<32 - 2, 1<<63 - 2, ^uint64(0) - 4} {
+		shift := func(ops []fop) []fop {
+			out := make([]fop, len(ops))
+			for i, o := range ops {
+				o.H += b - 1
+				out[i] = o
+			}
+			return out
+		}
+		var recB func(prefix []fop, depth int)
+		recB = func(prefix []fop, depth int) {
+			if depth == 0 {
+				ops := shift(prefix)
+				r := runFilterOps(ops)
+				seqs++
+				boundarySeqs++
+				delivs += r.delivs
+				evicted += r.evicted
+				if r.delivs > 0 {
+					nontrivial++
+				}
+				if r.viol != "" {
+					record(ops, r)
+				}
+				return
+			}
+			for _, a := range alpha {
+				recB(append(prefix, a), depth-1)
+			}
+		}
+		for L := 1; L <= run.Pick(4, 5); L++ {
+			recB(nil, L)
+		}
+	}
 	exhaustiveSeqs := seqs
 	// long random sequences over a wider height range
 	rng := rand.New(rand.NewSource(run.Seed*32452843 + 17))
@@ -341,6 +378,7 @@ func CheckC17Unit(run *harness.Run) ([]harness.Finding, map[string]interface{}, 
 		"samples":              samples,
 		"exhaustive":           true,
 		"exhaustive_sequences": exhaustiveSeqs,
+		"exhaustive_sequences_at_boundary_heights_(2^31,2^32,2^63,2^64-1)": boundarySeqs,
 		"deliveries_judged":    delivs,
 		"cached_messages_evicted_by_a_later_higher_height_(not_judged_for_loss)": evicted,
 		"violations_by_rule": byRule,
